@@ -1,22 +1,36 @@
 import SimbodyModel.Proto
 import SimbodyModel.C23
-/-! Driver for C23.  All tokens are hex doubles.
+/-! Driver for C23.  All tokens are hex doubles.  `flag` = 1 marks an interpolated report state (observed only), 0 a
+completed integrator step.
 
 * `I buf nops (code x y z)*`   ops on a `Measure_Delay_Buffer<Real>` pair (current / other):
       1 append tEarliest tNow v | 2 prepend t v _ | 3 other.copyInAndUpdate(current, tEarliest, tNow, v); swap |
       4 query tDelay | 5 clear
     → `O sizes …` (after every op) / `O vals …` (queries) / `O final t v t v …`   (capacities depend on `Array_`'s
       allocation policy and are not compared; the harness checks `size ≤ capacity`)
-* `I ext op N t0 v0 (t v)*N`        → `O val …` / `O time …`     (Extreme on an integrator trajectory; op 0 MaxAbs,1 Maximum,2 MinAbs,3 Minimum)
-* `I delay d N t0 v0 (t v)*N`       → `O val …`
-* `I diff N t0 v0 (t v)*N`          → `O val …`                  (Differentiate, approximation in use)
-* `I arith a w p t c k`             → `O arith s0 s1 s2 s3 plus minus scale`
+* `I ext op N t0 v0 (flag t v)*N`        → `O val …` / `O time …`   (op 0 MaxAbs, 1 Maximum, 2 MinAbs, 3 Minimum)
+* `I extd op N t0 v0 (flag t v vdot)*N`  → `O val …`                (`getValue(s,1)` of an Extreme)
+* `I extvec op N v0[3] (flag v[3])*N`    → `O val …`                (Extreme of a Vec3 measure, element-wise)
+* `I delay d N t0 v0 (flag t v)*N`       → `O val …`
+* `I diff N t0 v0 (flag t v)*N`          → `O val …`                (Differentiate, approximation in use)
+* `I integ euler N ic t0 v0 (t v)*N`     → `O zdot …` / `O z …`     (Integrate: zdot = operand at every step; z predicted when
+                                                                    the integrator is explicit Euler, else `O z` is empty)
+* `I arith a w p t c k`                  → `O arith s0 s1 s2 s3 plus minus scale`
 -/
 open Proto C23
 
 def nat (x : Float) : Nat := x.toUInt64.toNat
 def nan : Float := 0.0 / 0.0
 
+def triples : List Float → List (Bool × Float × Float)
+  | f :: a :: b :: rest => (f == 1.0, a, b) :: triples rest
+  | _ => []
+def quads : List Float → List (Bool × Float × Float × Float)
+  | f :: a :: b :: c :: rest => (f == 1.0, a, b, c) :: quads rest
+  | _ => []
+def vec3s : List Float → List (Bool × List Float)
+  | f :: a :: b :: c :: rest => (f == 1.0, [a, b, c]) :: vec3s rest
+  | _ => []
 def pairs : List Float → List (Float × Float)
   | a :: b :: rest => (a, b) :: pairs rest
   | _ => []
@@ -27,11 +41,10 @@ structure BufRun where
   cur : Buf Float
   other : Buf Float
   sizes : Array Float
-  caps : Array Float
   vals : Array Float
 
 def runBuf (ops : List Float) : BufRun := Id.run do
-  let mut r : BufRun := { cur := Buf.empty, other := Buf.empty, sizes := #[], caps := #[], vals := #[] }
+  let mut r : BufRun := { cur := Buf.empty, other := Buf.empty, sizes := #[], vals := #[] }
   let mut rest := ops
   while !rest.isEmpty do
     match rest with
@@ -45,9 +58,15 @@ def runBuf (ops : List Float) : BufRun := Id.run do
         r := { r with cur := upd, other := r.cur }
       else if c = 4 then r := { r with vals := r.vals.push ((r.cur.valueAt x).getD nan) }
       else r := { r with cur := Buf.empty }
-      r := { r with sizes := r.sizes.push (Float.ofNat r.cur.size), caps := r.caps.push (Float.ofNat r.cur.cap) }
+      r := { r with sizes := r.sizes.push (Float.ofNat r.cur.size) }
     | _ => rest := []
   return r
+
+/-- the derivative reported by an Extreme along a trajectory -/
+def extdRun (op : Op) : ExtSt Float → List (Bool × Float × Float × Float) → List Float
+  | _, [] => []
+  | st, (rep, t, v, vd) :: rest =>
+    extDeriv op st v vd :: extdRun op (if rep then st else extAdvance op st t v) rest
 
 def main : IO Unit := do
   let lines ← readStdinLines
@@ -64,18 +83,23 @@ def main : IO Unit := do
         out.putStrLn (fmtFloats "O vals" r.vals.toList)
         out.putStrLn (fmtFloats "O final" (r.cur.entries.foldr (fun e acc => e.1 :: e.2 :: acc) []))
       | "ext", opf :: _ :: t0 :: v0 :: steps =>
-        let obs := extRun (opOf (nat opf)) (extInit t0 v0) (pairs steps)
+        let obs := extRunF (opOf (nat opf)) (extInit t0 v0) (triples steps)
         out.putStrLn (fmtFloats "O val" (obs.map (·.1)))
         out.putStrLn (fmtFloats "O time" (obs.map (·.2.1)))
+      | "extd", opf :: _ :: t0 :: v0 :: steps =>
+        out.putStrLn (fmtFloats "O val" (extdRun (opOf (nat opf)) (extInit t0 v0) (quads steps)))
+      | "extvec", opf :: _ :: a :: b :: c :: steps =>
+        out.putStrLn (fmtFloats "O val" ((extVecRunF (opOf (nat opf)) [a, b, c] (vec3s steps)).flatten))
       | "delay", d :: _ :: t0 :: v0 :: steps =>
         let var := delayInit d t0 v0
-        let obs := delayRun d var Buf.empty (pairs steps)
+        let obs := delayRunF d var Buf.empty (triples steps)
         out.putStrLn (fmtFloats "O val" (obs.map (·.getD nan)))
       | "diff", _ :: t0 :: v0 :: steps =>
+        out.putStrLn (fmtFloats "O val" (diffRunF (diffInit t0 v0) (triples steps)))
+      | "integ", euler :: _ :: ic :: t0 :: v0 :: steps =>
         let ps := pairs steps
-        let ts := t0 :: ps.map (·.1)
-        let flagged := (ps.zip ts).map (fun (p, tprev) => (p.1, p.2, p.1 == tprev))
-        out.putStrLn (fmtFloats "O val" (diffRun (diffInit t0 v0) flagged))
+        out.putStrLn (fmtFloats "O zdot" (integZDot v0 :: ps.map (fun p => integZDot p.2)))
+        out.putStrLn (fmtFloats "O z" (if euler == 1.0 then integInit ic :: integEulerRun (integInit ic) t0 v0 ps else [integInit ic]))
       | "arith", [a, w, p, t, c, k] =>
         let arg := w * t + p
         let s := Float.sin arg; let co := Float.cos arg
